@@ -225,8 +225,12 @@ def main(run):
         irnd = random.Random(seed + 1)
         random.seed(seed)
         np.random.seed(seed % 2 ** 32)
-        st = TreeStorage(cat_feature_names=["c1", "c2"], num_feature_names=["n1", "n2"], max_depth=md,
-                         leaf_reservoir_length=L, grace_period=gp, seed=seed % 1000)
+        if fixed_seed is None and j % 2 == 1:
+            # positional arguments in the documented order: (cat, num, max_depth, leaf_reservoir_length, grace_period, seed)
+            st = TreeStorage(["c1", "c2"], ["n1", "n2"], md, L, gp, seed % 1000)
+        else:
+            st = TreeStorage(cat_feature_names=["c1", "c2"], num_feature_names=["n1", "n2"], max_depth=md,
+                             leaf_reservoir_length=L, grace_period=gp, seed=seed % 1000)
         feats = st.feature_names
         seen_ids = {}
         observed_cat = {"c1": set(), "c2": set()}
